@@ -194,6 +194,25 @@ def r5_2(repo: Repo) -> RuleResult:
                 else:
                     rr.bad(s.caller, construct, "constructor parameter `%s` is not passed to %s on the %s path: the constraint is never applied"
                            % (p, s.callee.name, s.entry), s.line)
+    # (4) second-stage pruning of n-grams: every frequency / count bound of the estimator is passed again
+    second = {"max_unique_tokens", "min_frequency", "max_frequency", "min_occurrences", "max_occurrences",
+              "min_document_frequency", "max_document_frequency", "min_document_occurrences", "max_document_occurrences"}
+    n_second = 0
+    for file, fn in (("vectorizers/ngram_vectorizer.py", "NgramVectorizer.fit"), ("vectorizers/ngram_token_cooccurence_vectorizer.py", "NgramCooccurrenceVectorizer._process_n_grams")):
+        f = repo.func(file, fn)
+        calls = [c for c in repo.calls_in(f) if prune in repo.resolve_call(f, c)]
+        if len(calls) != 1:
+            raise AnalysisError("R5.2: %s calls prune_token_dictionary %d times" % (fn, len(calls)))
+        b = repo.bind_args(prune, calls[0])
+        ctor = set(repo.ctor_params(f.cls))
+        for p in sorted(second & ctor):
+            n_second += 1
+            if p in b and norm(b[p]) == "self.%s" % p:
+                rr.ok(f, "n-gram stage prune(%s)" % p, "bound to self.%s" % p, calls[0].lineno)
+            else:
+                rr.bad(f, "n-gram stage prune(%s)" % p, "the n-gram pruning stage does not apply `%s` (got `%s`)" % (p, norm(b[p]) if p in b else "default"), calls[0].lineno)
+    if n_second < 18:
+        raise AnalysisError("R5.2: second-stage pruning bindings found: %d (18 confirmed)" % n_second)
     return rr
 
 
